@@ -3,15 +3,16 @@ import Proofs.ObjMachine
 import Proofs.GroupMachine
 import Proofs.Pipeline
 import Proofs.PipelineAmp
+import Proofs.Edges
 /-! Composition lemmas: object / group histories over the modelled pipeline. -/
 namespace Bycycle.Obj
 variable {S T : Type}
 
-theorem fit_is_pipeline (rc : Table → KV → Except Err Table) (o : Obj Recording Table) (ops : List (Op Recording Table)) (r : Recording)
-    (hdone : (step (pipelineApi rc) (run (pipelineApi rc) o ops) (.fit r)).2 = .done) :
+theorem fit_is_pipeline (o : Obj Recording Table) (ops : List (Op Recording Table)) (r : Recording)
+    (hdone : (step pipelineApi (run pipelineApi o ops) (.fit r)).2 = .done) :
     let cur := ops.foldl editSettings o.st
-    ∃ t, (step (pipelineApi rc) (run (pipelineApi rc) o ops) (.fit r)).1.df = some t ∧
-      ((cur.cycles = true ∧ ∃ oc, t = .cycles oc ∧
+    ∃ t, (step pipelineApi (run pipelineApi o ops) (.fit r)).1.df = some t ∧
+      ((cur.cycles = true ∧ ∃ oc, t = .cycles oc (cur.peak && cur.returnSamples) ∧
           pipelineCycles (centreOf cur) r.x (r.pad cur.fek) (r.b cur.fek (centreOf cur)) r.amp (r.bd cur.fek) (cycThreshOf cur.thresholds) = .ok oc) ∨
        (cur.cycles = false ∧ ∃ oa, t = .amp oa ∧
           pipelineAmp (centreOf cur) r.x (r.pad cur.fek) (r.b cur.fek (centreOf cur)) r.amp (r.bd cur.fek) (cur.burstKwargs.lookup "min_n_cycles")
@@ -19,7 +20,7 @@ theorem fit_is_pipeline (rc : Table → KV → Except Err Table) (o : Obj Record
             (lookupD cur.thresholds "burst_fraction_threshold" Slots.ampDefaultThreshold) = .ok oa)) ∧
       ((r.b cur.fek (centreOf cur)).length = r.x.length + 2 * r.pad cur.fek → wellFormed t.samples r.x.length (r.bd cur.fek)) := by
   intro cur
-  have h := fit_after_history (pipelineApi rc) o ops r
+  have h := fit_after_history pipelineApi o ops r
   simp only [] at h
   obtain ⟨h1, h2⟩ := h
   rw [h1] at hdone
@@ -47,6 +48,31 @@ theorem fit_is_pipeline (rc : Table → KV → Except Err Table) (o : Obj Record
       simp only [Except.map, Except.ok.injEq] at hcf'
       subst hcf'
       exact ⟨Or.inr ⟨hc', oa, rfl, rfl⟩, fun hlen => (pipelineAmp_spec _ _ _ _ _ _ _ _ _ _ _ oa hlen hp).1⟩
+
+/-- `Bycycle.recompute_edges(r)` on an object holding a consistency-method pipeline table: the stored table becomes the same table with its two consistency columns and
+its labels replaced by `recomputeEdges` - evaluated with the centring the code SEES and the stored thresholds lowered by `r` - and nothing else (samples, shape,
+amplitude fraction, monotonicity) changes; the settings are untouched. -/
+theorem edges_on_pipeline (o : Obj Recording Table) (oc : PipeOut) (pk : Bool) (r : Option Rat) (hdf : o.df = some (.cycles oc pk))
+    (hdone : (step pipelineApi o (.edges r)).2 = .done) :
+    ∃ rows, recomputeEdges pk (edgeRowsOf oc) (cycThreshOf (reduceThresholds o.st.thresholds r)) = .ok rows ∧
+      (step pipelineApi o (.edges r)).1.df = some (.cycles (withEdges oc rows) pk) ∧
+      (withEdges oc rows).samples = oc.samples ∧ (withEdges oc rows).shape = oc.shape ∧
+      (step pipelineApi o (.edges r)).1.st = o.st := by
+  simp only [step, hdf] at hdone ⊢
+  cases hrc : (pipelineApi.rc (.cycles oc pk) (reduceThresholds o.st.thresholds r) : Except Err Table) with
+  | error e => rw [hrc] at hdone; simp at hdone
+  | ok t' =>
+    have hrc' : rcPipeline (.cycles oc pk) (reduceThresholds o.st.thresholds r) = .ok t' := hrc
+    simp only [rcPipeline] at hrc'
+    cases hre : recomputeEdges pk (edgeRowsOf oc) (cycThreshOf (reduceThresholds o.st.thresholds r)) with
+    | error e => rw [hre] at hrc'; simp [Except.map] at hrc'
+    | ok rows =>
+      rw [hre] at hrc'
+      simp only [Except.map, Except.ok.injEq] at hrc'
+      subst hrc'
+      refine ⟨rows, rfl, ?_, rfl, rfl, ?_⟩
+      · simp
+      · simp
 
 theorem mapExcept_ok {α β : Type} (f : α → Except Err β) (xs : List α) (ts : List β) (h : mapExcept f xs = .ok ts) :
     ts.length = xs.length ∧ ∀ (i : Nat) (x : α), xs[i]? = some x → ∃ t, ts[i]? = some t ∧ f x = .ok t := by
